@@ -67,9 +67,13 @@ structure Pack where
   normalization : Option Nat
   nfcRefDist : Option Rat
   screenRef : Option Bool
+  /-- only for type Matrix: `inputPackFormat`, `outputPackFormat`, `encodePackFormats` -/
+  inputPack : Option Nat := none
+  outputPack : Option Nat := none
+  encodePacks : List Nat := []
   deriving DecidableEq
 
-instance : Inhabited Pack := ⟨⟨0, [], [], none, none, none, none, none⟩⟩
+instance : Inhabited Pack := ⟨⟨0, [], [], none, none, none, none, none, none, none, []⟩⟩
 
 /-- The single `AudioBlockFormatHoa` of an HOA channel (unused for other types). -/
 structure HoaBlock where
@@ -86,6 +90,23 @@ structure HoaBlock where
 
 instance : Inhabited HoaBlock := ⟨⟨0, 0, none, none, 1, 10, none, none, none⟩⟩
 
+/-- `MatrixCoefficient`: `inputChannelFormat`, `gain`, `delay` (the other attributes are rejected
+by validation). -/
+structure Coeff where
+  input : Nat
+  gain : Option Rat
+  delay : Option Rat
+  deriving DecidableEq, Inhabited
+
+/-- The single `AudioBlockFormatMatrix` of a Matrix channel (unused for other types). -/
+structure MatrixBlock where
+  outputChannel : Option Nat
+  gain : Rat
+  coeffs : List Coeff
+  deriving DecidableEq
+
+instance : Inhabited MatrixBlock := ⟨⟨none, 1, []⟩⟩
+
 /-- `AudioChannelFormat`: `blocks` are the labels of its audioBlockFormats. -/
 structure Channel where
   type : Nat
@@ -93,9 +114,10 @@ structure Channel where
   highPass : Option Rat
   blocks : List Nat
   hoa : HoaBlock
+  matrix : MatrixBlock := default
   deriving DecidableEq
 
-instance : Inhabited Channel := ⟨⟨0, none, none, [], default⟩⟩
+instance : Inhabited Channel := ⟨⟨0, none, none, [], default, default⟩⟩
 
 /-- How an `AudioTrackUID` reaches its channel format: BS.2076-1 style via
 audioTrackFormat → audioStreamFormat, or BS.2076-2 style directly. -/
@@ -147,7 +169,13 @@ def Adm.refsInRange (a : Adm) : Bool :=
     o.tracks.all (fun t => match t with | none => true | some u => u < a.fmt.trackUIDs.length) &&
     o.subObjects.all (· < a.objects.length) &&
     o.complementary.all (· < a.objects.length)) &&
-  a.fmt.packs.all (fun p => p.channels.all (· < nc) && p.subPacks.all (· < np)) &&
+  a.fmt.packs.all (fun p => p.channels.all (· < nc) && p.subPacks.all (· < np) &&
+    p.encodePacks.all (· < np) &&
+    (match p.inputPack with | none => true | some q => q < np) &&
+    (match p.outputPack with | none => true | some q => q < np)) &&
+  a.fmt.channels.all (fun c =>
+    (match c.matrix.outputChannel with | none => true | some q => q < nc) &&
+    c.matrix.coeffs.all (·.input < nc)) &&
   a.fmt.streamFormats.all (· < nc) &&
   a.fmt.trackFormats.all (· < a.fmt.streamFormats.length) &&
   a.fmt.trackUIDs.all (fun u =>
